@@ -210,4 +210,12 @@ CORPUS = [
     M("m-fromquat-sign-product", SO3, "        q = ca.if_else(arg.param[0] < 0, -arg.param, arg.param)\n        den = 1 + q[0]", "        q = ca.sign(arg.param[0]) * arg.param\n        den = 1 + q[0]", ["C07"]),
     M("m-integrator-freeze", RDD2, "    i1 = saturatem(i0 + e1 * dt, -i_max, i_max)\n", "    i1 = i0 + e1 * dt\n    i1 = ca.if_else(ca.fabs(i1) > i_max, i0, i1)\n", ["C15"]),
     B("b36-yB-guard-complement", LOGL, "    yB = ca.if_else(nyB > 1e-3, yB / nyB, xW)", "    yB = ca.if_else(nyB <= 1e-3, xW, yB / nyB)", ["C14", "C17"], "the same guard written as its complement"),
+    # ---- round 7
+    M("m-r7-C3-wide-switch", SYM, '        "(x^2/2 + cos(x) - 1)/x^4": taylor_series_near_zero(\n            u, (x2 / 2 + cos_x - 1) / x4\n        ),',
+      '        "(x^2/2 + cos(x) - 1)/x^4": taylor_series_near_zero(\n            u, (x2 / 2 + cos_x - 1) / x4, eps=1.0\n        ),', ["C08", "C06"], "an entry the strapdown propagation reads switches to its polynomial below 1 instead of 1e-3"),
+    B("b-r7-unread-entry-for-C08", SYM, '        "x/sin(x)": taylor_series_near_zero(u, x / sin_x),', '        "x/sin(x)": taylor_series_near_zero(u, x / sin_x, order=4),', ["C08"],
+      "breaks C06.table, but the propagation never reads this entry: C08.table must stay silent"),
+    B("b-r7-quat-log-clamped-acos", SO3, "        theta = 2 * ca.acos(q[0])\n        A = SERIES[\"x/sin(x)\"](theta / 2)\n        omega = q[1:4] * A * 2", "        theta = 2 * ca.acos(ca.fmin(q[0], 1))\n        A = SERIES[\"x/sin(x)\"](theta / 2)\n        omega = q[1:4] * A * 2", ["C03"],
+      "a clamp that never acts on the normalised scalar part, sign flip kept"),
+    M("m-r7-quat-log-clamp-no-flip", SO3, "        q = ca.if_else(q[0] < 0, -q, q)  # q and -q are the same rotation\n        theta = 2 * ca.acos(q[0])", "        theta = 2 * ca.acos(ca.fmin(ca.fabs(q[0]), 1))", ["C03"], "principal angle kept, vector part not flipped for q0 < 0"),
 ]
